@@ -512,7 +512,7 @@ Theorem process_preserves_original_partial : forall s w l,
   mem_loc l leaked = false -> after_process s w l = s l.
 Proof. intros s w l H. unfold after_process. rewrite <- leaked_spec, H. reflexivity. Qed.
 
-Theorem leaked_locations : leaked = [LNestedBlocks; LStmtPtrs; LCallArgs].
+Theorem leaked_locations : leaked = [LNestedBlocks; LStmtPtrs; LCallArgs; LExprPtrs].
 Proof. vm_compute. reflexivity. Qed.
 
 Theorem process_preserves_original_refuted : exists s w l, after_process s w l <> s l.
